@@ -15,7 +15,15 @@ HasByteL(s, b) == \E i \in 1..Len(s) : s[i] = b
 StripLine(line) ==
   LET h == IndexByte(line, HASH) IN TrimSpace(IF h = 0 THEN line ELSE SubSeq(line, 1, h - 1))
 IsCont(s) == s # <<>> /\ s[Len(s)] = BSL                      \* strings.HasSuffix(line, "\\")
-DropBsl(s) == SubSeq(s, 1, Len(s) - 1)                        \* strings.TrimSuffix(line, "\\")
+DropBsl(s) == SubSeq(s, 1, Len(s) - 1)                        \* strings.TrimSuffix(line, "\\"): the ONE continuation mark
+\* negative control: strings.TrimRight(line, "\\") - the whole run of backslashes at the end of the line.  A line
+\* ending in two backslashes is a body ending in a backslash (it escapes the first character of the next line)
+\* followed by the continuation mark; only the mark may go.
+RECURSIVE DropAllBsl(_)
+DropAllBsl(s) == IF s # <<>> /\ s[Len(s)] = BSL THEN DropAllBsl(SubSeq(s, 1, Len(s) - 1)) ELSE s
+\* number of backslashes a (stripped) line ends in
+RECURSIVE BslRun(_)
+BslRun(s) == IF s # <<>> /\ s[Len(s)] = BSL THEN 1 + BslRun(SubSeq(s, 1, Len(s) - 1)) ELSE 0
 
 \* ---------------------------------------------------------------- declarative meaning
 RECURSIVE Content(_)
@@ -77,8 +85,11 @@ FileBytes(f, nl) ==
 \* style = [cut, ind, csuf, lsuf, sep, eofc]
 \*   cut  0: one line   1: a new line after every blank (that is not followed by a blank)
 \*        2: one cut in the middle of the text, not necessarily at a blank
+\*        3: a new line after every run of backslashes (the line then ends in run + 1 backslashes)
+\*        4: a new line after every backslash (continuation lines that start with a backslash, lines that are
+\*           nothing but `\\`)          5: a new line after the first backslash of every run
 \*   ind  0/1/2: continuation lines are not indented / by blanks / by a tab (1, 2: also the first line)
-\*   csuf how a continuation line ends   0: `\`   1: `\` and trailing blanks   2: `\ # comment`
+\*   csuf how a continuation line ends   0: `\`   1: `\` and trailing blanks   2: `\ # comment`   3: `\# comment`
 \*   lsuf how the last line ends         0: nothing  1: ` # comment`  2: trailing blanks  3: `# comment` right after the text
 \*   sep  what stands between two lines of the phrase and after it
 \*        0: nothing  1: a blank line  2: a comment line  3: a comment line that ends in `\`
@@ -96,13 +107,16 @@ CutsOf(p, cut) ==
   CASE cut = 0 -> {}
     [] cut = 1 -> {k \in 1..(Len(p) - 1) : p[k] = SP /\ CutOK(p, k)}
     [] cut = 2 -> LET C == {k \in (Len(p) \div 2)..(Len(p) - 1) : CutOK(p, k)} IN IF C = {} THEN {} ELSE {MinOf(C)}
+    [] cut = 3 -> {k \in 1..(Len(p) - 1) : p[k] = BSL /\ p[k + 1] # BSL /\ CutOK(p, k)}
+    [] cut = 4 -> {k \in 1..(Len(p) - 1) : p[k] = BSL /\ CutOK(p, k)}
+    [] cut = 5 -> {k \in 1..(Len(p) - 1) : p[k] = BSL /\ (k = 1 \/ p[k - 1] # BSL) /\ CutOK(p, k)}
 RECURSIVE PiecesFrom(_, _, _)
 PiecesFrom(p, from, cuts) ==
   LET C == {k \in cuts : k >= from} IN
   IF C = {} THEN <<SubSeq(p, from, Len(p))>>
   ELSE <<SubSeq(p, from, MinOf(C))>> \o PiecesFrom(p, MinOf(C) + 1, cuts)
 Indent(ind) == CASE ind = 0 -> <<>> [] ind = 1 -> <<SP, SP>> [] ind = 2 -> <<TAB>>
-ContSuffix(c) == CASE c = 0 -> <<BSL>> [] c = 1 -> <<BSL, SP, SP>> [] c = 2 -> <<BSL, SP>> \o CMT
+ContSuffix(c) == CASE c = 0 -> <<BSL>> [] c = 1 -> <<BSL, SP, SP>> [] c = 2 -> <<BSL, SP>> \o CMT [] c = 3 -> <<BSL>> \o CMT
 LastSuffix(l) == CASE l = 0 -> <<>> [] l = 1 -> <<SP>> \o CMT [] l = 2 -> <<SP, SP>> [] l = 3 -> CMT
 SepLines(sep) == CASE sep = 0 -> <<>> [] sep = 1 -> <<<<>>>> [] sep = 2 -> <<CMT>> [] sep = 3 -> <<CMTB>>
 RECURSIVE LayPieces(_, _, _)
